@@ -1525,3 +1525,9 @@ def eval_under(model, v):
     if _isinstance(v, dict):
         return {k: eval_under(model, x) for k, x in v.items()}
     return v
+
+
+def refine_or(v, lo, hi):
+    """refine(v, lo, hi) when the path condition allows it, else v unchanged (note: a refined value may be the int 0)"""
+    r = refine(v, lo, hi)
+    return v if r is None else r
